@@ -5,6 +5,7 @@ import RsMatterVerif.Model.Codec.PlainHdr
 import RsMatterVerif.Model.Codec.ProtoHdr
 import RsMatterVerif.Model.Codec.StatusReport
 import Driver.C17More
+import Driver.C17X509 -- D16d
 import Driver.Util
 /-!
 Driver for C17. One case = one codec (`case <id> <codec>`); every op line is self-contained:
@@ -305,7 +306,10 @@ def step (st : St) (line : String) : St × String :=
     | k =>
       match Driver.C17More.step k ws out with
       | some r => (st, r)
-      | none => (st, "BAD kind")
+      | none =>
+        match Driver.C17X509.step k ws out with -- D16d: der / dersig / cd / x509 / csr
+        | some r => (st, r)
+        | none => (st, "BAD kind")
 
 def run : IO UInt32 := Driver.runLoop ({} : St) step
 
